@@ -1057,13 +1057,15 @@ static int bucket_skipped(int top, int sub)
     return 0;
 }
 
-/* allocation bound per parser call: no honest parse needs more than a few thousand allocations */
+/* allocation bound per parser call: no honest parse needs more than a few thousand allocations, and a parser may
+ * allocate in proportion to its input (a bundle of 257 repeated elements is ~20 k allocations): 20000 + 4 per input byte */
 #define ALLOC_BOUND 20000
+static long g_alloc_bound = ALLOC_BOUND;
 static int alloc_bound_hook(long k)
 {
-    if (k > ALLOC_BOUND)
+    if (k > g_alloc_bound)
     {
-        fprintf(stderr, "c09: allocation runaway: more than %d allocations inside one parser call\n", ALLOC_BOUND);
+        fprintf(stderr, "c09: allocation runaway: more than %d + 4 x input length allocations inside one parser call\n", ALLOC_BOUND);
         abort();
     }
     return 0;
@@ -1148,6 +1150,7 @@ static int run_case(const entry_t *E, int si, long idx, bfind_t *f, int *ok, int
         env_reset(0);
         env_alloc_count = 0;
         env_alloc_hook = alloc_bound_hook;
+        g_alloc_bound = ALLOC_BOUND + 4 * (long) m.len;
         live0 = env_live();
         env_track(1);
         rc = run_entry(E, in, m.len);
@@ -1382,7 +1385,7 @@ static void classify_crash(int st, char *kind, size_t kn, char *site, size_t sn,
     if (strstr(capbuf, "env: live table full") || strstr(capbuf, "c09: allocation runaway"))
     {
         snprintf(kind, kn, "alloc-runaway");
-        snprintf(line, ln, "more than %d allocations inside one parser call (unbounded loop)", ALLOC_BOUND);
+        snprintf(line, ln, "more than %d + 4 x input length allocations inside one parser call (unbounded loop)", ALLOC_BOUND);
     }
     /* first stack frame of the first stack that belongs to the library: frames up to and including the last
      * interceptor / allocator-seam frame are skipped */
